@@ -128,10 +128,23 @@ pub fn set_journal_for(shard_out: &std::path::Path) {
     *JOURNAL.lock().unwrap() = Some(journal_path(shard_out));
 }
 
+static PART: std::sync::atomic::AtomicUsize = std::sync::atomic::AtomicUsize::new(usize::MAX);
+
+/// A composite property tells which of its parts is running: journalled verdicts (which bypass the
+/// composite's own bookkeeping because the process dies) carry it, so that the replay is routed to that part.
+pub fn set_part(i: Option<usize>) {
+    PART.store(i.unwrap_or(usize::MAX), std::sync::atomic::Ordering::SeqCst);
+}
+
 /// Record the verdict to report if the process dies while evaluating the current item.
 pub fn journal(v: &crate::evidence::Violation) {
     if let Some(p) = JOURNAL.lock().unwrap().as_ref() {
-        let _ = std::fs::write(p, serde_json::to_vec(v).unwrap());
+        let mut v = v.clone();
+        let part = PART.load(std::sync::atomic::Ordering::SeqCst);
+        if part != usize::MAX && v.witness.is_object() {
+            v.witness["part"] = serde_json::json!(part);
+        }
+        let _ = std::fs::write(p, serde_json::to_vec(&v).unwrap());
     }
 }
 
